@@ -466,6 +466,12 @@ func (w *world) callSSA(caller *frame, callpos token.Pos, fn *ssa.Function, args
 		if in := intrinsics[fn.Name()]; in != nil && strings.HasPrefix(fn.Name(), "verif") {
 			return in(w, caller, fn, args)
 		}
+		for _, sa := range w.ex.setargs {
+			if strings.HasPrefix(name, sa.prefix) && sa.idx < len(args) {
+				args = append([]value{}, args...)
+				args[sa.idx] = sa.val
+			}
+		}
 		// harness-declared redirects
 		if to, ok := w.ex.redirects[name]; ok && !w.inRedirect[to] {
 			fn = to
